@@ -50,7 +50,7 @@ def name_of(f, i, fmts):
     if n["k"] == "DeclRefExpr":
         vid = n["decl"]["id"]
         if vid in fmts:
-            cands = [(k, fm) for (k, fm) in fmts[vid] if k < i]
+            cands = [(k, fm) for (k, fm) in fmts[vid] if f.seq(k) < f.seq(i)]
             if cands:
                 return cands[-1][1]
         # const char name[] = "EXTENTS"
@@ -80,9 +80,10 @@ def stream_formats(f):
     for i, cal in f.calls():
         if cal and cal["name"] == "snprintf":
             a = f.args(i)
-            dst, fmt = f.strip(a[0]), f.strip(a[2])
-            if f.k(fmt) == "StringLiteral" and f.k(dst) == "DeclRefExpr":
-                fmts.setdefault(f.nodes[dst]["decl"]["id"], []).append((i, f.nodes[fmt]["v"]))
+            dst = f.strip(a[0])
+            fmt, _rest = core.printf_format(f, i)
+            if fmt is not None and f.k(dst) == "DeclRefExpr":
+                fmts.setdefault(f.nodes[dst]["decl"]["id"], []).append((i, fmt))
     for i in f.walk():
         n = f.nodes[i]
         if n["k"] == "CXXOperatorCallExpr" and n.get("opcall") == "<<":
@@ -405,8 +406,9 @@ def _format_index_vars(f):
         if cal and cal["name"] == "snprintf":
             a = f.args(i)
             dst = f.strip(a[0])
-            if f.k(dst) == "DeclRefExpr" and len(a) == 4:
-                v = f.strip(a[3])
+            _fmt, rest = core.printf_format(f, i)
+            if f.k(dst) == "DeclRefExpr" and len(rest) == 1:
+                v = f.strip(rest[0])
                 if f.k(v) == "DeclRefExpr":
                     out.setdefault(f.nodes[dst]["decl"]["id"], []).append((i, f.nodes[v]["decl"]["id"]))
     for i in f.walk():
@@ -432,7 +434,7 @@ def _name_index(f, arg, fiv):
     """decl id of the variable formatted into the name passed as `arg` (nearest preceding format of the stream / buffer it mentions)"""
     for x in f.walk(arg):
         if f.k(x) == "DeclRefExpr" and f.nodes[x]["decl"]["id"] in fiv:
-            c = [(k, v) for (k, v) in fiv[f.nodes[x]["decl"]["id"]] if k < arg]
+            c = sorted(((k, v) for (k, v) in fiv[f.nodes[x]["decl"]["id"]] if f.seq(k) < f.seq(arg)), key=lambda kv: f.seq(kv[0]))
             if c:
                 return c[-1][1]
     return None
@@ -473,7 +475,7 @@ def fs8(P, C, floor=7):
         # data argument position per cfitsio routine
         DATA = {"ffgky": 3, "ffpky": 3, "ffuky": 3, "ffgpxv": 5, "ffppx": 4, "ffgisz": 3}
         cur = None          # index variable of the current indexed HDU (after fits_movnam_hdu / EXTNAME)
-        for (i, nm, macro) in sorted(calls, key=lambda c: f.nodes[c[0]]["loc"]):
+        for (i, nm, macro) in sorted(calls, key=lambda c: f.seq(c[0])):
             a = f.args(i)
             if nm == "ffmnhd":
                 cur = _name_index(f, a[2], fiv)
